@@ -382,8 +382,44 @@ func (c *checker) flush() {
 
 // ---- C02 ----
 
+// failAfter accepts n bytes and then fails (with a short write, as a full disk or a closed
+// connection does).
+type failAfter struct{ n int }
+
+func (f *failAfter) Write(p []byte) (int, error) {
+	if len(p) <= f.n {
+		f.n -= len(p)
+		return len(p), nil
+	}
+	k := f.n
+	f.n = 0
+	return k, io.ErrShortWrite
+}
+
+var c02Fail int
+
+// c02FailedEncode makes an Encode (and a stream-writer sequence) of v fail part-way; the
+// encodes and decodes that follow must not be affected by whatever the failed call left in
+// pooled writers and buffers.
+func c02FailedEncode(v *wv.V) {
+	n := len(v.Encode(nil))
+	if n == 0 {
+		return
+	}
+	safely(func() {
+		_ = binary.Default.Encode(v.ToWire(), &failAfter{n: n / 2})
+		w := binary.Default.Writer(&failAfter{n: n - 1})
+		_ = v.WriteStream(w)
+		w.Close()
+	})
+}
+
 func c02Value(c *checker, v *wv.V, how string) {
 	text := v.Text()
+	if c02Fail++; c02Fail%3 == 0 {
+		c02FailedEncode(v)
+		c.rep.Hist("preceded-by-failed-encode", "yes")
+	}
 	ref := "ok " + hx(v.Encode(nil))
 	e1 := implEncode(v)
 	e2 := implStreamEncode(v)
@@ -542,7 +578,7 @@ func runC02(c *checker, r *rng.R) {
 		}
 	}
 	c.flush()
-	c.rep.Rule = "values: bounded-exhaustive enumeration of small shapes + random typed values (all 11 types, nested, raw element-type bytes on empty containers, extreme ints, special doubles) + binaries at the 1 MiB threshold, two over-threshold binaries per value, long maps/lists/sets of fixed-width items (300–6000 entries), every binary length 120–300 and around powers of two up to 64 KiB; random-access decode through bytes.Reader and through a ReaderAt that returns io.EOF together with the last bytes; stream reads under rotating segmentation, every other reader returning its last byte together with io.EOF; non-trivial = has more than one node or is a double/binary; distinct by canonical text"
+	c.rep.Rule = "values: bounded-exhaustive enumeration of small shapes + random typed values (all 11 types, nested, raw element-type bytes on empty containers, extreme ints, special doubles) + binaries at the 1 MiB threshold, two over-threshold binaries per value, long maps/lists/sets of fixed-width items (300–6000 entries), every binary length 120–300 and around powers of two up to 64 KiB; random-access decode through bytes.Reader and through a ReaderAt that returns io.EOF together with the last bytes; every third value preceded by an Encode and a stream-writer sequence of the same value into a destination that fails half-way; stream reads (binaries alternately through ReadBinary and ReadString) under rotating segmentation, every other reader returning its last byte together with io.EOF; non-trivial = has more than one node or is a double/binary; distinct by canonical text"
 }
 
 // ---- C03 ----
